@@ -904,6 +904,8 @@ def _match(rule_when, ev_index, name, counts, msg_ordinal, now, fired):
         return msg_ordinal is not None and msg_ordinal == rule_when[1]
     if kind == "time":
         return now >= rule_when[1] and not fired
+    if kind == "time_after_ready":
+        return now >= rule_when[1] and not fired and counts.get("ready", 0) > 0
     if kind == "every":
         return True
     return False
